@@ -79,6 +79,7 @@ func Install(n *Net) {
 	if !cur.CompareAndSwap(nil, n) {
 		panic("simnet: a network is already installed")
 	}
+	resetHTTP()
 }
 func Uninstall(n *Net)        { cur.CompareAndSwap(n, nil) }
 func Current() *Net           { return cur.Load() }
@@ -405,7 +406,14 @@ type Listener struct {
 	closed  bool
 	q       simrt.WaitQ
 	TLS     *tls.Config
+	serving bool // Accept has been called at least once
 }
+
+// Serving reports whether somebody has started accepting on the listener (a bound address alone
+// serves nobody).
+//
+//go:norace
+func (l *Listener) Serving() bool { return l.serving && !l.closed }
 
 //go:norace
 func Listen(network, addr string) (net.Listener, error) {
@@ -443,6 +451,7 @@ func TLSListen(network, addr string, cfg *tls.Config) (net.Listener, error) {
 //go:norace
 func (l *Listener) Accept() (net.Conn, error) {
 	simrt.Touch()
+	l.serving = true
 	simrt.YieldOp("accept")
 	for {
 		if l.closed {
